@@ -237,7 +237,7 @@ func runC16(c *report.Ctx) {
 	}
 
 	// ---- (4) second-address accessors -----------------------------------------------------------
-	c.Rule("second-address-guarded", "SecondEncodeAddress/SecondScriptAddress/SecondAddress are called only under IsStaking() or IsBinding() of the same script, or on scripts of staking/binding history records", 5)
+	c.Rule("second-address-guarded", "SecondEncodeAddress/SecondScriptAddress/SecondAddress are called only under IsStaking() or IsBinding() of the same script, or on scripts of staking/binding history records", 3)
 	historyReaders := map[string]string{
 		"(*masswallet/txmgr.UtxoStore).GetUnminedBindingHistoryDetail": "iterates binding history records (bucket LG, type binding): the output is a binding script",
 		"(*masswallet/txmgr.UtxoStore).GetBindingHistoryDetail":        "iterates binding history records (bucket lg, type binding): the output is a binding script",
